@@ -15,6 +15,10 @@ def install_repo():
     sys.path.insert(0, REPO_SRC)
     for k in ("JAQALPAQ_RUN_EMULATOR", "JAQALPAQ_RUN_PORT"):
         os.environ.pop(k, None)
+    import warnings
+
+    # the library warns when it renormalises probabilities (sloppy gate); not an event
+    warnings.filterwarnings("ignore", message="Error in probabilities", category=RuntimeWarning)
 
 
 class StepBudgetExceeded(BaseException):
